@@ -538,3 +538,29 @@ func storesThroughMaps(a *ssa.Alloc) []*ssa.Store {
 	}
 	return out
 }
+
+// rootsUp: the roots rs with every parameter root which resolveUp can follow
+// to its only caller replaced by the roots of what that caller passes (a
+// method made a plain function is handed what it used to read from its
+// receiver).
+func (p *Prog) rootsUp(rs []Root, through func(callee string) bool) []Root {
+	for depth := 0; depth < 4; depth++ {
+		var out []Root
+		changed := false
+		for _, rt := range rs {
+			if "param" == rt.Kind {
+				if u := p.resolveUp(rt.V); u != rt.V {
+					out = append(out, valueRoots(u, through)...)
+					changed = true
+					continue
+				}
+			}
+			out = append(out, rt)
+		}
+		rs = out
+		if !changed {
+			break
+		}
+	}
+	return rs
+}
